@@ -346,12 +346,20 @@ func (h *hangs) deadline(kind string) time.Duration {
 // observeStream calls f (Search or List) and drains the channel. Nothing here can hang the harness:
 // the call and the drain run against deadlines; what does not finish is an observation.
 func observeStream(a *abs, h *hangs, kind string, f func(ctx context.Context) (chan storage.Stream[storage.ListResult], error)) streamObs {
+	return observeStreamCtx(a, h, kind, func() (context.Context, context.CancelFunc) {
+		return context.WithTimeout(context.Background(), 30*time.Second)
+	}, f)
+}
+
+// observeStreamCtx is observeStream under a context of the caller's making (live, already cancelled,
+// cancelled a moment after the call starts, expired).
+func observeStreamCtx(a *abs, h *hangs, kind string, mk func() (context.Context, context.CancelFunc), f func(ctx context.Context) (chan storage.Stream[storage.ListResult], error)) streamObs {
 	type ret struct {
 		ch    chan storage.Stream[storage.ListResult]
 		err   error
 		panic string
 	}
-	ctx, cancel := context.WithTimeout(context.Background(), 30*time.Second)
+	ctx, cancel := mk()
 	defer cancel()
 	rc := make(chan ret, 1)
 	go func() {
@@ -493,13 +501,16 @@ func searchItem(a *abs, vt *vaultUnderTest, u uuid.UUID) (present bool, row rowO
 // ---------------------------------------------------------------------------------- a history
 
 type stepRec struct {
-	Kind   string `json:"kind"`
-	Input  any    `json:"input,omitempty"`
-	Obs    any    `json:"obs,omitempty"`
-	Note   string `json:"note,omitempty"`
-	term   string
-	filter *filterSpec
-	limit  *int
+	Kind  string `json:"kind"`
+	Input any    `json:"input,omitempty"`
+	Obs   any    `json:"obs,omitempty"`
+	Note  string `json:"note,omitempty"`
+	term  string
+	// volatile: the observation depends on the schedule (contexts cancelled during the call); the verdict does
+	// not, and the observation is left out of the history's hash
+	volatile bool
+	filter   *filterSpec
+	limit    *int
 }
 
 type scenario struct {
@@ -512,6 +523,7 @@ type scenario struct {
 	steps   []stepRec
 	live    map[int]planSpec // harness's own bookkeeping, used only to aim the generator
 	nPlans  int
+	wedged  bool
 	index   int
 	tier    string
 	groups  []int
@@ -519,7 +531,23 @@ type scenario struct {
 	hist    map[string]int
 }
 
-func (s *scenario) add(st stepRec) { s.steps = append(s.steps, st); s.hist["step:"+st.Kind]++ }
+func (s *scenario) add(st stepRec) {
+	s.steps = append(s.steps, st)
+	s.hist["step:"+st.Kind]++
+	if strings.Contains(st.Note, "call did not return within the deadline") {
+		// the store is wedged (on the original tree: a connection that was never returned): the observation
+		// just recorded is the violation; nothing more is asked of this store, every call would hang
+		s.wedged = true
+	}
+}
+
+// skip is true once the store has wedged.
+func (s *scenario) skip() bool {
+	if s.wedged {
+		s.hist["skipped-after-wedge"]++
+	}
+	return s.wedged
+}
 
 func (s *scenario) itemTerm(ix int) (string, any, string) {
 	if !s.vt.cosmos {
@@ -533,6 +561,9 @@ func (s *scenario) itemTerm(ix int) (string, any, string) {
 }
 
 func (s *scenario) create(ps planSpec) {
+	if s.skip() {
+		return
+	}
 	p := build(s.r, s.uu, ps, s.r.Chance(0.3))
 	class, note := guarded(func(ctx context.Context) error { return s.vt.v.Create(ctx, p) })
 	it, itObs, n2 := s.itemTerm(ps.Ix)
@@ -549,6 +580,9 @@ func (s *scenario) create(ps planSpec) {
 }
 
 func (s *scenario) update(ix int, status, submit, start, end int64) {
+	if s.skip() {
+		return
+	}
 	ps, ok := s.live[ix]
 	if !ok {
 		ps = planSpec{Ix: ix, Start: zeroSubmit, End: zeroSubmit}
@@ -571,6 +605,9 @@ func (s *scenario) update(ix int, status, submit, start, end int64) {
 }
 
 func (s *scenario) delete(ix int) {
+	if s.skip() {
+		return
+	}
 	u := s.uu[ix]
 	class, note := guarded(func(ctx context.Context) error { return s.vt.v.Delete(ctx, u) })
 	it, itObs, n2 := s.itemTerm(ix)
@@ -582,6 +619,9 @@ func (s *scenario) delete(ix int) {
 }
 
 func (s *scenario) exists(ix int) {
+	if s.skip() {
+		return
+	}
 	u := s.uu[ix]
 	var got bool
 	class, note := guarded(func(ctx context.Context) error {
@@ -617,6 +657,9 @@ func (s *scenario) filters(f filterSpec) storage.Filters {
 }
 
 func (s *scenario) search(f filterSpec) {
+	if s.skip() {
+		return
+	}
 	sf := s.filters(f)
 	s.hist["filter:"+f.kind()]++
 	if n := len(f.IDs) + len(f.Groups) + len(f.Statuses); n > 40 {
@@ -644,6 +687,9 @@ func (s *scenario) search(f filterSpec) {
 }
 
 func (s *scenario) list(limit int) {
+	if s.skip() {
+		return
+	}
 	rel := "n"
 	switch n := len(s.live); {
 	case limit < 0:
@@ -695,7 +741,7 @@ func (s *scenario) list(limit int) {
 // Exists is asked about a stored and a never-created id; then every query fails and Search / List are run.
 // Nothing is mutated while a fault is set.
 func (s *scenario) faults() {
-	if !s.vt.cosmos {
+	if !s.vt.cosmos || s.skip() {
 		return
 	}
 	stored := 0
@@ -754,6 +800,115 @@ func (s *scenario) faults() {
 	s.hist["stream-fault:list"]++
 	s.add(stepRec{Kind: "list-fault", Input: map[string]any{"limit": 0}, Obs: o, Note: o.Note, term: core.App("TStreamFault", o.term())})
 	s.vt.ctl.SetQueryItemsErr(false)
+}
+
+// ctxFamily: Search and List under contexts that are done before or during the call. Expectation (monitor in
+// Coq): an error, or a stream closed within the bound whose items are a newest-first prefix of the answer.
+// Afterwards the same store must still answer with a live context (a dropped streaming job keeps sqlite's
+// only connection: every later call then hangs, which observeStream / guarded report and s.wedged records).
+func (s *scenario) ctxFamily() {
+	if s.skip() {
+		return
+	}
+	r := s.r
+	n := 12
+	if s.tier == "thorough" {
+		n = 24
+	}
+	for i := 0; i < n && !s.wedged; i++ {
+		mode := i % 3
+		var mk func() (context.Context, context.CancelFunc)
+		label := ""
+		switch mode {
+		case 0:
+			label = "cancelled-before"
+			mk = func() (context.Context, context.CancelFunc) {
+				c, cancel := context.WithCancel(context.Background())
+				cancel()
+				return c, cancel
+			}
+		case 1:
+			d := time.Duration(r.Intn(200)) * time.Microsecond
+			label = "cancelled-during"
+			mk = func() (context.Context, context.CancelFunc) {
+				c, cancel := context.WithCancel(context.Background())
+				go func() { time.Sleep(d); cancel() }()
+				return c, cancel
+			}
+		default:
+			label = "deadline-expired"
+			mk = func() (context.Context, context.CancelFunc) {
+				return context.WithDeadline(context.Background(), time.Now().Add(-time.Second))
+			}
+		}
+		if (i/3)%2 == 0 {
+			limit := []int{0, -1, 1, len(s.live), len(s.live) + 1}[r.Intn(5)]
+			if s.vt.cosmos && limit > 0 {
+				limit = 0 // the fake's limit pager panics on an int @limit
+			}
+			o := observeStreamCtx(s.a, s.h, s.backend+":list-ctx", mk, func(ctx context.Context) (chan storage.Stream[storage.ListResult], error) {
+				return s.vt.v.List(ctx, limit)
+			})
+			s.hist["ctx:list:"+label+":"+ctxOutcome(o)]++
+			s.add(stepRec{Kind: "list-ctx", Input: map[string]any{"limit": limit, "context": label}, Obs: o, Note: o.Note, volatile: true,
+				term: core.App("TListCtx", core.B(!s.vt.cosmos), core.Z(int64(limit)), o.term())})
+		} else {
+			kind := 1 + r.Intn(7)
+			if s.vt.cosmos {
+				kind = 1 // through the fake only id filters mean anything
+			}
+			f := s.randomFilter(kind, r.Chance(0.5))
+			if r.Chance(0.3) && !s.vt.cosmos {
+				f = filterSpec{Statuses: []int64{100}}
+			}
+			sf := s.filters(f)
+			o := observeStreamCtx(s.a, s.h, s.backend+":search-ctx", mk, func(ctx context.Context) (chan storage.Stream[storage.ListResult], error) {
+				return s.vt.v.Search(ctx, sf)
+			})
+			s.hist["ctx:search:"+label+":"+ctxOutcome(o)]++
+			s.add(stepRec{Kind: "search-ctx", Input: map[string]any{"filter": f, "context": label}, Obs: o, Note: o.Note, volatile: true,
+				term: core.App("TSearchCtx", core.B(!s.vt.cosmos), f.term(), o.term())})
+		}
+	}
+	// the store afterwards, live context: complete answers again
+	stored := 0
+	for ix := 1; ix <= s.nPlans; ix++ {
+		if _, ok := s.live[ix]; ok {
+			stored = ix
+			break
+		}
+	}
+	s.exists(stored)
+	if stored != 0 && !s.wedged {
+		u := s.uu[stored]
+		class, note := guarded(func(ctx context.Context) error { _, err := s.vt.v.Read(ctx, u); return err })
+		s.hist[fmt.Sprintf("read-after-ctx:class=%d", class)]++
+		if class == 2 {
+			// Read is C13's subject; here only "does the store still answer": a hang is recorded through Exists below
+			s.add(stepRec{Kind: "exists", Input: map[string]any{"ix": stored, "via": "Read after the context family"}, Obs: 2, Note: note,
+				term: core.App("TExists", core.N(uint64(stored)), core.Nat(2))})
+		}
+	}
+	s.list(0)
+	if s.vt.cosmos {
+		s.search(filterSpec{IDs: []int{stored, s.unknown[0]}})
+	} else {
+		s.search(filterSpec{Statuses: statusPool})
+	}
+}
+
+func ctxOutcome(o streamObs) string {
+	switch {
+	case o.Class == 1:
+		return "error"
+	case o.Class == 2:
+		return "panic-or-hang"
+	case !o.Closed:
+		return "never-closed"
+	case o.Err:
+		return fmt.Sprintf("closed-after-error-%d-items", min(len(o.Items), 3))
+	}
+	return "closed-complete-or-prefix"
 }
 
 // pick returns k values drawn from pool (with repetition allowed when dup).
@@ -966,7 +1121,15 @@ func runScenario(seed uint64, index int, tier string, scratch string) core.Case 
 	if err != nil {
 		return core.Case{ID: id, Kind: backend, Note: "harness: cannot open vault: " + err.Error()}
 	}
-	defer vt.cleanup()
+	defer func() {
+		// Close of a wedged store waits for its connection for ever: bounded, like everything else
+		done := make(chan struct{})
+		go func() { defer close(done); vt.cleanup() }()
+		select {
+		case <-done:
+		case <-time.After(3 * time.Second):
+		}
+	}()
 
 	s := &scenario{r: r, backend: backend, vt: vt, a: &abs{ids: map[uuid.UUID]int{}}, h: processHangs,
 		live: map[int]planSpec{}, nPlans: nPlans, index: index, tier: tier, hist: map[string]int{}}
@@ -1076,11 +1239,16 @@ func runScenario(seed uint64, index int, tier string, scratch string) core.Case 
 	}
 	s.battery(true)
 	s.faults()
+	s.ctxFamily()
 
 	terms := make([]string, len(s.steps))
 	var hparts []string
 	for i, st := range s.steps {
 		terms[i] = st.term
+		if st.volatile {
+			hparts = append(hparts, st.Kind)
+			continue
+		}
 		b, _ := json.Marshal(st.Obs)
 		hparts = append(hparts, st.term, string(b))
 	}
